@@ -197,8 +197,11 @@ class Replayer:
             df_cmp = df
         # --- grouping state
         try:
-            part = [tbl._cache.uuid_to_name.get(u, tbl._cache.cols[u].name) if not hasattr(u, "name") else u.name
-                    for u in tbl._cache.partition_by]
+            pb = list(tbl._cache.partition_by)
+            if all(u in tbl._cache.uuid_to_name for u in pb):
+                part = [tbl._cache.uuid_to_name[u] for u in pb]
+            else:   # a hidden grouping column has no observable name: compare the number of grouping columns only
+                part = obs["part"] if len(pb) == len(obs["part"]) else [str(u) for u in pb]
             if part != obs["part"]:
                 self.fail(node, beh, k, bk, "group", f"grouping {part}, specification {obs['part']}")
         except Exception as e:  # noqa: BLE001
@@ -265,11 +268,18 @@ class Replayer:
                 res = self.retry_with_alias(node, beh, k, side, m)
                 if res is None:
                     return
+            elif cls == "TypeError" and "different backends" in str(e) and bk != "polars":
+                side.alive, side.why = False, "mixed-backends-after-collect"
+                return
             elif exp_err is not None:
                 self.stats["err_steps"] += 1
                 if cls != exp_err:
                     self.fail(node, beh, k, bk, "errclass", f"specification: {exp_err}, raised {cls}: {e}",
                               expected=exp_err, exc=cls)
+                return
+            elif cls == "TypeError" and "different backends" in str(e) and bk != "polars":
+                # the SQL-side pipeline went through collect() and is Polars-backed from there on
+                side.alive, side.why = False, "mixed-backends-after-collect"
                 return
             elif cls == "NotSupportedError" and bk != "polars":
                 side.alive, side.why = False, "not-supported"
@@ -283,6 +293,10 @@ class Replayer:
         if exp_err is not None:
             self.fail(node, beh, k, bk, "errclass", f"specification: {exp_err}, verb call was accepted", expected=exp_err, exc=None)
             self.stats["err_steps"] += 1
+            return
+        if "val" in step:
+            if res != step["val"]:
+                self.fail(node, beh, k, bk, "getname", f"tbl[ref].name = {res!r}, specification {step['val']!r}")
             return
         obs = step["o"]
         # extend heap / references
